@@ -147,3 +147,48 @@ VDECL(mfuse::Level, XLevel) { VEND };
 VDECL(mfuse::ScriptMutex, XMutex) { VEND };
 VDECL(mfuse::SimpleEntity, XEnt) { VEND };
 VDECL(XEnt, XEnt2) { VEND };
+
+// command definitions that live in a growing std::vector: each growth step move-constructs the
+// definitions into the new storage and destroys the moved-from ones (a host that builds its
+// commands at run time).  Every one of them must keep its own event number.
+static std::vector<mfuse::EventDef>& movedEvs()
+{
+    static std::vector<mfuse::EventDef> v = [] {
+        std::vector<mfuse::EventDef> w;        // no reserve: 1 -> 2 -> 4 -> 8 relocations
+        static const char* const names[] = { "vc16_mv0", "vc16_mv1", "vc16_mv2", "vc16_mv3", "vc16_mv4" };
+        for (const char* n : names) w.emplace_back(n, 0, nullptr, nullptr, "C16 harness command (moved)", mfuse::evType_e::Normal);
+        w.emplace_back("vc16_mv0", 0, nullptr, nullptr, "C16 harness command (moved)", mfuse::evType_e::Return);
+        return w;
+    }();
+    return v;
+}
+static const char* const movedNames[] = { "vc16_mv0", "vc16_mv1", "vc16_mv2", "vc16_mv3", "vc16_mv4", "vc16_mv0" };
+static const int movedKinds[] = { (int)mfuse::evType_e::Normal, (int)mfuse::evType_e::Normal, (int)mfuse::evType_e::Normal,
+                                  (int)mfuse::evType_e::Normal, (int)mfuse::evType_e::Normal, (int)mfuse::evType_e::Return };
+static RegEv regev_mv0(&movedEvs()[0], movedNames[0], movedKinds[0], nullptr);
+static RegEv regev_mv1(&movedEvs()[1], movedNames[1], movedKinds[1], nullptr);
+static RegEv regev_mv2(&movedEvs()[2], movedNames[2], movedKinds[2], nullptr);
+static RegEv regev_mv3(&movedEvs()[3], movedNames[3], movedKinds[3], nullptr);
+static RegEv regev_mv4(&movedEvs()[4], movedNames[4], movedKinds[4], nullptr);
+static RegEv regev_mv5(&movedEvs()[5], movedNames[5], movedKinds[5], nullptr);
+// a command defined after the relocations: it must not be handed a number that is still in use
+VEV(ev_after_moves_n, "vc16_after_moves", Normal)
+
+VCLASS(M0, mfuse::Listener)
+VCLASS(M1, M0)
+static RegCls regcls_M0("M0", &clsOf<M0>);
+MFUS_CLASS_DECLARATION(mfuse::Listener, M0, nullptr)
+{
+    { &movedEvs()[0], &M0::On<0> },
+    { &movedEvs()[2], &M0::On<1> },
+    { &movedEvs()[4], &M0::On<2> },
+    { &movedEvs()[5], &M0::On<3> },
+    { &ev_after_moves_n, &M0::On<4> },
+    VEND
+};
+VDECL(M0, M1)
+{
+    { &movedEvs()[1], &M1::On<0> },
+    { &movedEvs()[0], &M1::On<1> },     // override
+    VEND
+};
